@@ -98,7 +98,7 @@ func (e *Engine) valueEq(a, b Value) *T {
 		return BoolConst(identEq(a, b))
 	case *TimeVal:
 		if y, ok := b.(*TimeVal); ok {
-			return Eq(x.Ns, y.Ns)
+			return And(Eq(x.Sec, y.Sec), Eq(x.Nsec, y.Nsec))
 		}
 	case *IntVal:
 		if y, ok := b.(*IntVal); ok {
